@@ -262,6 +262,11 @@ func mergeValues(opts *options, old, v value) (value, Error) {
 		return v, nil
 	}
 
+	// two nil values are no sub-configurations: nil stays nil
+	if isNil(old) && isNil(v) {
+		return v, nil
+	}
+
 	// check if new and old value evaluate to sub-configurations. If one is no
 	// sub-configuration, use new value only.
 	subOld, err := old.toConfig(opts)
